@@ -27,7 +27,7 @@ ASSUMPTIONS = [
     "tables whose due moves all have weight zero while free slots remain are outside the quantifier and are not generated",
     "distribution clause decided by binomial z (|z|>5 flagged, re-measured once with 4x the steps and fresh seed; violation only if flagged again with the same sign)",
 ]
-REQUIRED = {"steps_checked": 2000, "steps_nothing_due": 20, "zero_weight_due_steps": 50, "guard_refusals": 10, "dist_tests_resolved": 20, "min_count_steps": 200}
+REQUIRED = {"tables_retuned_live": 12, "steps_checked": 2000, "steps_nothing_due": 20, "zero_weight_due_steps": 50, "guard_refusals": 10, "dist_tests_resolved": 20, "min_count_steps": 200}
 SHARD_TIMEOUT = {"quick": 600, "thorough": 2400}
 
 WEIGHTS = [0.0, 1e-9, 1.0, 1.0, 10.0, 1e6, 0.3]
@@ -72,6 +72,8 @@ def plan(tier, seed):
     for j in range(8 if tier == "quick" else 16):
         specs.append({"name": f"dist{j}", "mode": "dist", "seed": seed, "j": j, "n": 3 if tier == "quick" else 6, "steps": 4000 if tier == "quick" else 20000})
     specs.append({"name": "guard", "mode": "guard", "seed": seed, "n": 300 if tier == "quick" else 3000})
+    for j in range(4 if tier == "quick" else 16):
+        specs.append({"name": f"retune{j}", "mode": "retune", "seed": seed, "j": j, "n": 4 if tier == "quick" else 8, "steps": 1500 if tier == "quick" else 6000})
     return specs
 
 
@@ -125,15 +127,21 @@ def table_sig(cycles, table):
     return f"c{cycles}:" + ",".join(f"{t['interval']}/{t['weight']:g}/{t['min']}" for t in table)
 
 
-def run_table(rec: Rec, kind, cycles, table, seed, steps, pool=None, seqs=None):
-    """Run one table; per-step deterministic checks; returns pooled free-slot counts."""
-    mc = make_driver(kind, seed, cycles)
-    for t in table:
-        mc.add_move(ProbeMove(), ProbeCriteria(), name=t["name"], interval=t["interval"], probability=t["weight"], minimum_count=t["min"])
+def run_table(rec: Rec, kind, cycles, table, seed, steps, pool=None, seqs=None, mc=None, keep=None):
+    """Run one table; per-step deterministic checks; returns pooled free-slot counts.  With `mc` given, the run is a
+    continuation of that live simulation (whose table the caller has re-tuned to `table`)."""
+    if mc is None:
+        mc = make_driver(kind, seed, cycles)
+        for t in table:
+            mc.add_move(ProbeMove(), ProbeCriteria(), name=t["name"], interval=t["interval"], probability=t["weight"], minimum_count=t["min"])
+        s_expected = 0
+    else:
+        s_expected = int(mc.step_count)
+    if keep is not None:
+        keep["mc"] = mc
     by = {t["name"]: t for t in table}
     sig = table_sig(cycles, table)
     pool = {} if pool is None else pool
-    s_expected = 0
     for step in mc.irun(steps):
         s = mc.step_count
         if s != s_expected:
@@ -309,6 +317,57 @@ def run_dist(spec, rec):
                     rec.count("escalations")
 
 
+def run_retune(spec, rec):
+    """A live simulation whose weights (and, in half of the cases, intervals) are re-assigned between two run calls
+    through the move table's documented attributes: the second run is judged against the new table."""
+    rng = rng_for("C09r", spec["seed"], spec["j"])
+    for i in range(spec["n"]):
+        while True:
+            cycles, table = gen_table(rng, cycles=int(rng.integers(3, 9)))
+            for t in table:
+                t["weight"] = float(rng.choice([0.0, 0.5, 1.0, 2.0, 5.0]))
+                t["interval"] = int(rng.choice([1, 1, 2, 3]))
+            table2 = [dict(t) for t in table]
+            for t in table2:
+                t["weight"] = float(rng.choice([0.0, 0.5, 1.0, 3.0, 8.0]))
+                if i % 2:
+                    t["interval"] = int(rng.choice([1, 2, 3]))
+            if len(table) >= 2 and all(due_ok(table, cycles, k) for k in range(12)) and all(due_ok(table2, cycles, k) for k in range(12)) and any(a["weight"] != b["weight"] for a, b in zip(table, table2)):
+                break
+        seed = derive_seed("C09r", spec["seed"], spec["j"], i)
+        kind = ["MonteCarlo", "Canonical"][i % 2]
+        try:
+            keep: dict = {}
+            first = int(rng.integers(1, 40))
+            run_table(rec, kind, cycles, table, seed, first, keep=keep)
+            mc = keep["mc"]
+            for t in table2:
+                st = mc.moves[t["name"]]
+                st.probability = t["weight"]
+                st.interval = t["interval"]
+            rec.count("tables_retuned_live")
+            pool = run_table(rec, kind, cycles, table2, seed, spec["steps"], mc=mc)
+        except Exception as ex:  # noqa: BLE001
+            rec.viol(f"C09/raised/{type(ex).__name__}", f"scheduling a feasible (re-tuned) table raised {type(ex).__name__}: {ex}", {"driver": kind, "table": table_sig(cycles, table), "retuned_to": table_sig(cycles, table2), "seed": seed})
+            continue
+        flagged, resolved = judge_pool(table2, pool)
+        rec.count("dist_tests_resolved", resolved)
+        if flagged:
+            # re-measure on a fresh simulation taken through the same re-tuning
+            rec.count("escalations", len(flagged))
+            keep2: dict = {}
+            run_table(Rec("re"), kind, cycles, table, derive_seed("re", seed), first, keep=keep2)
+            for t in table2:
+                keep2["mc"].moves[t["name"]].probability = t["weight"]
+                keep2["mc"].moves[t["name"]].interval = t["interval"]
+            pool2 = run_table(Rec("re"), kind, cycles, table2, seed, spec["steps"] * 4, mc=keep2["mc"])
+            again = {(f[0], f[1]): f for f in judge_pool(table2, pool2)[0]}
+            for due, d, z, n, pr in flagged:
+                f2 = again.get((due, d))
+                if f2 is not None and (f2[2] > 0) == (z > 0):
+                    rec.viol("C09/distribution/after-retuning", f"after the weights were re-assigned on the live simulation, free slots choose {d} with frequency off its new weight share p={pr:.4g}: z={z:.1f} (n={n}), re-measured z={f2[2]:.1f}", {"driver": kind, "table": table_sig(cycles, table), "retuned_to": table_sig(cycles, table2), "due": list(due), "move": d})
+
+
 def run_guard(spec, rec):
     rng = rng_for("C09g", spec["seed"])
     for i in range(spec["n"]):
@@ -351,5 +410,5 @@ def run(spec):
 
     env.import_quansino()
     rec = Rec(spec["name"])
-    {"tables": run_tables, "dist": run_dist, "guard": run_guard}[spec["mode"]](spec, rec)
+    {"tables": run_tables, "dist": run_dist, "guard": run_guard, "retune": run_retune}[spec["mode"]](spec, rec)
     return rec.out()
